@@ -79,7 +79,7 @@ message(get_option('o_a'))
         'meson.build': """project('compiled', 'c', version: '0.3', default_options: ['b_ndebug=if-release', 'c_std=c99'])
 lib = static_library('l', 'f.c', install: true)
 executable('e', 'm.c', link_with: lib, c_args: ['-DX=1'])
-import('pkgconfig').generate(lib, name: 'l', description: 'd', variables: ['b=2', 'a=1'])
+import('pkgconfig').generate(lib, name: 'l', description: 'd', variables: ['b=2', 'a=1'], requires: ['bar >= 1.5', 'bar != 1.5', 'bar < 2.0', 'zed', 'alpha > 1'], requires_private: ['qux <= 3', 'qux != 3', 'qux >= 3'], libraries: ['-lz', '-la', '-lz'], extra_cflags: ['-DB', '-DA'])
 """,
         'f.c': 'int f(void) { return 1; }\n',
         'm.c': 'int f(void); int main(void) { return f() - 1; }\n',
@@ -217,7 +217,9 @@ def _det_chunk(chunk):
                 # build.ninja is rewritten by every configure run (only its CONTENT must stay identical, compared above); the
                 # configure_file outputs must not be touched
                 top = {f: os.stat(os.path.join(build, f)).st_mtime_ns for f in os.listdir(build) if os.path.isfile(os.path.join(build, f)) and f not in ('build.ninja', 'compile_commands.json') and not f.startswith('.')}
-                import time
+                import time, glob
+                gen_files = sorted(glob.glob(os.path.join(build, 'meson-info', 'intro-*.json')) + glob.glob(os.path.join(build, 'meson-private', '*.pc')) + glob.glob(os.path.join(build, 'meson-uninstalled', '*.pc')))
+                gen_before = {f: (os.stat(f).st_mtime_ns, open(f, 'rb').read()) for f in gen_files}
                 time.sleep(0.05)
                 rc, out = setup(repo, src, build, 5, False, ('--reconfigure',))
                 if rc != 0:
@@ -230,6 +232,10 @@ def _det_chunk(chunk):
                     touched = [f for f in top if os.stat(os.path.join(build, f)).st_mtime_ns != top[f]]
                     if touched:
                         fails.append({'case': {'project': name}, 'stage': 'reconfigure', 'detail': f'a reconfigure with nothing changed touched unchanged outputs {sorted(touched)}'})
+                    gtouched = [os.path.relpath(f, build) for f, (mt, data) in gen_before.items() if os.path.exists(f) and open(f, 'rb').read() == data and os.stat(f).st_mtime_ns != mt]
+                    if gtouched:
+                        kinds = sorted({'meson-info/intro-*.json' if 'intro-' in g else 'generated pkg-config files' for g in gtouched})
+                        fails.append({'case': {'project': name}, 'stage': 'reconfigure-generated', 'detail': f'a reconfigure with nothing changed touched unchanged generated files: {kinds} ({len(gtouched)} files rewritten with identical content)'})
         finally:
             shutil.rmtree(d, ignore_errors=True)
     return len(chunk), nt, fails
